@@ -898,14 +898,16 @@ class SklearnEKFAdapter(BaseEstimator):
             dict(self._inverse_flatten_dict_diagonal(controls, arglist_control))
         )
 
+        # Build a new mapping, the estimator's own sensor_noises stay as they are
+        params["sensor_noises"] = dict(self.sensor_noises)
         for key, mapping in sorted(list(self.sensor_noises.items())):
             sensor_size = len(mapping)
             sensor, flattened = flattened[:sensor_size], flattened[sensor_size:]
 
             arglist = sorted(list(mapping.keys()))
 
-            params["sensor_noises"][key] = dict(
-                self._inverse_flatten_dict_diagonal(sensor, arglist)
+            params["sensor_noises"][key] = nearest_positive_definite(
+                dict(self._inverse_flatten_dict_diagonal(sensor, arglist))
             )
 
         return params
@@ -923,12 +925,13 @@ class SklearnEKFAdapter(BaseEstimator):
         def minimize_this(x: NDArray) -> float:
             holdout_params = dict(self.get_params())
 
-            scoring_params = self._inverse_flatten_scoring_params(x)
-            self.set_params(**scoring_params)
+            try:
+                scoring_params = self._inverse_flatten_scoring_params(x)
+                self.set_params(**scoring_params)
 
-            score = self.score(X, y, sample_weight)
-
-            self.set_params(**holdout_params)
+                score = self.score(X, y, sample_weight)
+            finally:
+                self.set_params(**holdout_params)
             return score
 
         minimize_this(x0)
